@@ -29,6 +29,7 @@ import (
 	"sync/atomic"
 	"syscall"
 	"testing"
+	"time"
 )
 
 // Syscalls is the traced set: the one fixed in DESIGN.md plus every other
@@ -85,12 +86,33 @@ func Start(t *testing.T, pkg string) *Session {
 	if err != nil {
 		t.Fatal(err)
 	}
+	// hard limits: the traced binary is the already built test binary only
+	// (never the go tool), and it is killed with its whole process group
+	limit := 4 * time.Minute
+	if tier == "thorough" {
+		limit = 90 * time.Minute
+	}
+	if v, err := strconv.Atoi(os.Getenv("VERIF_C14_LIMIT_S")); err == nil && v > 0 {
+		limit = time.Duration(v) * time.Second
+	}
 	cmd := exec.Command("strace", "-f", "-s", strconv.Itoa(SmallLimit+64), "-xx", "-e", "trace="+Syscalls, "-o", trace,
-		exe, "-test.run", "^TestVerifC14$", "-test.count=1", "-test.timeout=4h")
+		exe, "-test.run", "^TestVerifC14$", "-test.count=1", "-test.timeout="+(limit-10*time.Second).String())
 	cmd.Env = append(os.Environ(), "VERIF_C14_CHILD=1", "VERIF_C14_ROOT="+root, "VERIF_C14_META="+meta)
+	cmd.SysProcAttr = &syscall.SysProcAttr{Setpgid: true}
 	var ob bytes.Buffer
 	cmd.Stdout, cmd.Stderr = &ob, &ob
-	cerr := cmd.Run()
+	cerr := cmd.Start()
+	if cerr == nil {
+		done := make(chan error, 1)
+		go func() { done <- cmd.Wait() }()
+		select {
+		case cerr = <-done:
+		case <-time.After(limit):
+			syscall.Kill(-cmd.Process.Pid, syscall.SIGKILL)
+			<-done
+			cerr = fmt.Errorf("traced run exceeded its hard limit of %s and was killed", limit)
+		}
+	}
 	tail := ob.String()
 	if len(tail) > 3000 {
 		tail = tail[len(tail)-3000:]
